@@ -72,11 +72,17 @@ class BlobManager:
         return self._get_blob(blob_hash, length).get_is_verified()
 
     async def setup(self) -> bool:
+        def is_file(item) -> bool:
+            try:
+                return item.is_file()
+            except OSError:  # e.g. a symlink loop: not a blob file
+                return False
+
         def get_files_in_blob_dir() -> typing.Set[str]:
             if not self.blob_dir:
                 return set()
             return {
-                item.name for item in os.scandir(self.blob_dir) if is_valid_blobhash(item.name) and item.is_file()
+                item.name for item in os.scandir(self.blob_dir) if is_valid_blobhash(item.name) and is_file(item)
             }
 
         in_blobfiles_dir = await self.loop.run_in_executor(None, get_files_in_blob_dir)
